@@ -93,7 +93,7 @@ def build(case):
     elif d == "RMB":
         # from address 0 so that every n up to 65535 stays inside the address space; framed by NOPs when there is room
         stmt = " RMB {}".format(R.spell(case["n"], case["sp"]))
-        if case["n"] > 65000:
+        if case["n"] > 40000:
             return [" ORG 0", stmt], 1
     elif d == "NONE":
         stmt = case["line"]
